@@ -40,6 +40,21 @@ def operator_matrix():
         for pre in ["-", "!", "?"]:
             for a in pool:
                 out.append(f"fn main() {{ let a = {a}; println({pre}a); }}")
+    # indexing and slicing members on every container, with boundary indices (negative, one past the end, far out) and
+    # non-ASCII strings (characters != bytes)
+    idx = ["0", "1", "2", "3", "4", "5", "6", "(-1)", "(-2)", "(-3)", "(-5)", "(-6)", "(-7)", "9223372036854775807", "(-9223372036854775807 - 1)"]
+    conts = ['""', '"abc"', '"h\u00e9llo"', '"\u00e4b"', '"\u65e5\u672c"', "[1, 2, 3]", "[7]", '["x", "\u00e9"]']
+    for c in conts:
+        for i in idx:
+            out.append(f"fn main() {{ let c = {c}; let i = {i}; println(c[i]); }}")
+            if c.startswith("["):
+                out.append(f"fn main() {{ let c = {c}; let i = {i}; c[i] = c[0]; println(c); c.remove(i); println(c); }}")
+                out.append(f"fn main() {{ let c = {c}; let i = {i}; c.insert(i, c[0]); println(c); }}")
+            else:
+                out.append(f"fn main() {{ let c = {c}; let i = {i}; println(c.substring(i)); }}")
+                out.append(f"fn main() {{ let c = {c}; let i = {i}; println(c.repeat(i % 5).len()); }}")
+        out.append(f"fn main() {{ let c = {c}; println(c.len()); for x in c {{ print(x, \"\"); }} println(c[c.len() - 1]); }}")
+        out.append(f"fn main() {{ let c = {c}; println(c[c.len()]); }}")
     return out
 
 
